@@ -354,7 +354,10 @@ def main_check(spec, argv):
     tier = args.tier
     seed = int(os.environ.get("VERIF_SEED", "1") or "1")
     t0 = time.time()
-    workdir = os.path.join(VERIF, "build", "%s-%s" % (prop, tier if not args.replay else "replay"))
+    workdir = os.path.join(VERIF, "build", "%s-%s%s" % (prop, tier if not args.replay else "replay",
+                                                        os.environ.get("VERIF_WORK", "")))
+    spec = dict(spec)
+    spec["_workdir"] = workdir
     shutil.rmtree(workdir, ignore_errors=True)
     os.makedirs(workdir)
 
@@ -512,7 +515,11 @@ def write_evidence(spec, tier, seed, res, per_config, wall, nviol, inconclusive=
         "violations": nviol,
     }
     os.makedirs(os.path.join(VERIF, "evidence"), exist_ok=True)
-    with open(os.path.join(VERIF, "evidence", "%s.json" % prop), "w") as f:
+    evpath = os.path.join(VERIF, "evidence", "%s.json" % prop)
+    if os.path.realpath(REPO) != "/repo":
+        # a scratch tree (mutant self-test): never touch the committed evidence
+        evpath = os.path.join(spec["_workdir"], "evidence.json")
+    with open(evpath, "w") as f:
         json.dump(ev, f, indent=1)
         f.write("\n")
 
